@@ -111,6 +111,28 @@ def cases(ctx):
                     "src": f"*={org:#08x}\nstride := 2\n.for zz_i := 0, 4 {{\nstride := 8\n.db 0x40 + zz_i * stride\n}}\n.for zz_j := 0, 3 {{\n.db 1 + zz_j * stride\n}}\n",
                     "twin_src": f"*={org:#08x}\n.db 0x40, 0x48, 0x50, 0x58\n.db 1, 3, 5\n"})
         # (a `:=` whose value uses the loop counter is refused: the counter is bound when the passes run, DESIGN S.6)
+        # a named scope holding labels AND `=` symbols exports both kinds, used before and after the scope
+        out.append({"kind": "export-mixed", "rom": rom, "spec": {"t": "twin", "labels": False},
+                    "src": f"*={org:#08x}\n.db tail.count\n.scope tail {{\nentry:\nrts\ncount = 3\nwidth := 2\n}}\n.dl tail.entry\n.db tail.count, tail.width\n",
+                    "twin_src": f"*={org:#08x}\n.db 3\nzz_e:\nrts\n.dl zz_e\n.db 3, 2\n"})
+        # a `=` symbol computed from a label of its own scope, under an outer definition of the label's name that is already
+        # known at expansion time: the innermost definition counts
+        for outer in ("origin = 0x20\n", "origin := 0x20\n"):
+            out.append({"kind": "symbol-from-inner-label", "rom": rom, "spec": {"t": "twin", "labels": False},
+                        "src": f"*={org:#08x}\n{outer}{{\nnop\norigin:\nsize = origin + 3\n.dl size\n}}\n.db origin\n",
+                        "twin_src": f"*={org:#08x}\n{outer}{{\nnop\nzz_o:\nzz_s = zz_o + 3\n.dl zz_s\n}}\n.db origin\n"})
+        out.append({"kind": "symbol-from-inner-label", "rom": rom, "spec": {"t": "twin", "labels": False},
+                    "src": f"*={org:#08x}\n.macro zz_en(base) {{\nhere:\nbase = here\nnext = base + 2\n.dl next\n}}\nzz_en(0x10)\n",
+                    "twin_src": f"*={org:#08x}\n{{\nhere:\nzz_b = here\nzz_n = zz_b + 2\n.dl zz_n\n}}\n"})
+        # blocks whose only labels stand inside .if bodies: the label is local to its block all the same
+        blk = "{{\nlda.w #{v}\n.if 1 {{\njmp.w {n}\nnop\n{n}:\n.db 0xD1\n}}\nrts\n}}\n"
+        out.append({"kind": "label-in-if-in-block", "rom": rom, "spec": {"t": "twin", "labels": False},
+                    "src": f"*={org:#08x}\n" + blk.format(v=1, n="done") + "nop\n" + blk.format(v=2, n="done"),
+                    "twin_src": f"*={org:#08x}\n" + blk.format(v=1, n="zz_d1") + "nop\n" + blk.format(v=2, n="zz_d2")})
+        # a `=` symbol computed from the loop counter under an outer constant of the counter's name
+        out.append({"kind": "symbol-from-counter", "rom": rom, "spec": {"t": "twin", "labels": False},
+                    "src": f"*={org:#08x}\nstep := 4\n.for step := 0, 3 {{\noff = step * 2 + 1\n.db off, step\n}}\n.db step\n",
+                    "twin_src": f"*={org:#08x}\n.db 1, 0, 3, 1, 5, 2\n.db 4\n"})
         # `.if` / `else` open no scope: a name defined in either branch belongs to the scope the .if is written in
         for cond, val in (("0", 0x20), ("1", 0x40)):
             out.append({"kind": f"if-branch-no-scope:{cond}", "rom": rom, "spec": {"t": "twin", "labels": False},
@@ -204,7 +226,7 @@ def cases(ctx):
                 out.append({"kind": "export", "rom": rom, "src": src, "spec": {"t": "export", "name": "lab"}})
             out.append({"kind": "export-before", "rom": rom, "spec": {"t": "export", "name": "lab"},
                         "src": f"*={org:#08x}\n.dl sc.lab\n.scope sc {{\nnop\nlab:\nnop\n}}\n.dl sc.lab\n"})
-    return core.mark_must_assemble(out, {'assign-shadow', 'export', 'if-branch-no-scope', 'same-scope-name-in-siblings', 'scope-in-macro-twice', 'shadow-width', 'export-any', 'counter-vs-outer', 'sibling-reuse', 'export-before'})
+    return core.mark_must_assemble(out, {'label-in-if-in-block', 'symbol-from-counter', 'export-mixed', 'symbol-from-inner-label', 'assign-shadow', 'export', 'if-branch-no-scope', 'same-scope-name-in-siblings', 'scope-in-macro-twice', 'export-any', 'counter-vs-outer', 'sibling-reuse', 'export-before'})
 
 
 def instantiate(gen_q):
